@@ -464,18 +464,28 @@ pub struct OracleNet {
     pub announces: Vec<(usize, Id, SocketAddr, bool)>, // (node index, info hash, contact, token ok)
     pub answer_delay_max: u64,
     pub last_tids: Vec<Vec<u8>>,
+    /// the network forgets its dead: a node that fell silent (SilentFrom) is no longer named by the others this many ms later
+    pub forget_dead_after: Option<i64>,
 }
 
 impl OracleNet {
     pub fn new(nodes: Vec<VNode>) -> Self {
         let by_addr = nodes.iter().enumerate().map(|(i, n)| (n.addr, i)).collect();
-        OracleNet { nodes, by_addr, announces: vec![], answer_delay_max: 0, last_tids: vec![] }
+        OracleNet { nodes, by_addr, announces: vec![], answer_delay_max: 0, last_tids: vec![], forget_dead_after: None }
     }
     pub fn addrs(&self) -> Vec<SocketAddr> {
         self.nodes.iter().map(|n| n.addr).collect()
     }
     pub fn closest(&self, target: &Id, v4: bool, k: usize) -> Vec<(Id, SocketAddr)> {
         let mut v: Vec<_> = self.nodes.iter().filter(|n| n.addr.is_ipv4() == v4).map(|n| (xor(&n.id, target), n.id, n.addr)).collect();
+        v.sort();
+        v.into_iter().take(k).map(|(_, i, a)| (i, a)).collect()
+    }
+    pub fn closest_at(&self, target: &Id, v4: bool, k: usize, now: i64) -> Vec<(Id, SocketAddr)> {
+        let Some(forget) = self.forget_dead_after else { return self.closest(target, v4, k) };
+        let mut v: Vec<_> = self.nodes.iter().filter(|n| n.addr.is_ipv4() == v4)
+            .filter(|n| !matches!(n.mode, Mode::SilentFrom(t0) if now >= t0 + forget))
+            .map(|n| (xor(&n.id, target), n.id, n.addr)).collect();
         v.sort();
         v.into_iter().take(k).map(|(_, i, a)| (i, a)).collect()
     }
@@ -527,7 +537,7 @@ impl Scripted for Arc<Mutex<OracleNet>> {
         }
         let v4 = d.src.is_ipv4();
         let node_lists = |me: &OracleNet, target: &Id| {
-            let mut l = if me.nodes[idx].truthful { me.closest(target, v4, 8) } else { vec![] };
+            let mut l = if me.nodes[idx].truthful { me.closest_at(target, v4, 8, now) } else { vec![] };
             l.extend(me.nodes[idx].names_extra.iter().copied());
             if v4 { (l, vec![]) } else { (vec![], l) }
         };
